@@ -85,8 +85,27 @@ class Style(object):
   def comma(self):
     return self.pick([", ", ",", " , ", ",\n      "])
 
+  def num(self, x):
+    """Numeral for x; non-plain styles pick among spellings that denote exactly the same double."""
+    t = fnum(x)
+    if self.plain or isinstance(x, (int, str)):
+      return t
+    c = self.rng.random()
+    if c < 0.6:
+      return t
+    if c < 0.7 and x > 0:
+      return "+" + t
+    if c < 0.85:
+      e = "%.17e" % x
+      return e if float(e) == x else t
+    if c < 0.93 and "e" not in t and "." in t:
+      return t + "0"
+    if "e" not in t and "." in t and t.startswith("0."):
+      return t[1:]            # .5 for 0.5
+    return t
+
   def marker(self, m, s):
-    return self.pick(["%s%s", "%s %s"]) % (m, fnum(s))
+    return self.pick(["%s%s", "%s %s"]) % (m, self.num(s))
 
 
 def node_text(node, st, top=True):
@@ -94,11 +113,11 @@ def node_text(node, st, top=True):
   k = node["k"]
   sp = st.sp
   if k == "form":
-    return " ".join(["as." + node["name"]] + [fnum(v) for v in node["p"]]) if st.plain else sp().join(["as." + node["name"]] + [fnum(v) for v in node["p"]])
+    return " ".join(["as." + node["name"]] + [st.num(v) for v in node["p"]]) if st.plain else sp().join(["as." + node["name"]] + [st.num(v) for v in node["p"]])
   if k in ("sum", "product", "pow"):
     return "%s(%s)" % (k, st.comma().join(node_text(a, st) for a in node["a"]))
   if k == "trans":
-    return "trans(%s%sas.constant %s)" % (node_text(node["f"], st), st.comma(), fnum(node["x"]))
+    return "trans(%s%sas.constant %s)" % (node_text(node["f"], st), st.comma(), st.num(node["x"]))
   if k == "ranges":
     out = []
     for i, (m, s, sub) in enumerate(node["parts"]):
@@ -109,11 +128,11 @@ def node_text(node, st, top=True):
         out.append(st.marker(m, s) + sp() + body)
     return sp().join(out)
   if k == "custom":
-    return sp().join([node["name"]] + [fnum(v) for v in node["args"]])
+    return sp().join([node["name"]] + [st.num(v) for v in node["args"]])
   if k == "table":
     return node["name"]
   if k == "buck4":
-    return sp().join(["as.buck4"] + [fnum(v) for v in node["p"]])
+    return sp().join(["as.buck4"] + [st.num(v) for v in node["p"]])
   if k == "spline":
     s0 = node.get("s0", [">", 0.0])
     start = node_text(node["start"], st, top=False)
@@ -123,7 +142,7 @@ def node_text(node, st, top=True):
       head = start
     else:
       head = st.marker(s0[0], s0[1]) + sp() + start
-    mid = node["kind"] + ((" " + fnum(node["rmin"])) if node["kind"] == "buck4_spline" else "")
+    mid = node["kind"] + ((" " + st.num(node["rmin"])) if node["kind"] == "buck4_spline" else "")
     return "spline(%s%s%s %s%s%s%s%s)" % (head, sp(), st.marker(node["md"], node["rd"]), mid, sp(),
                                          st.marker(node["ma"], node["ra"]), sp(), node_text(node["end"], st, top=False))
   raise KeyError(k)
